@@ -279,10 +279,15 @@ fn exec(
     let mut model: Vec<DocModel> = vec![DocModel::default(); NDOCS];
     let total = pre.len() + hist.len();
     let mut observed = String::new();
+    let mut txn_kind = "none";
     for (i, ev) in pre.iter().chain(hist.iter()).enumerate() {
         let last = i + 1 == total;
+        // what every document looked like before this event. It is derived from the reference
+        // (the prefix history is explored on its own and was compared with the reference there)
+        // rather than read from the store: reading would change which kind of transaction the
+        // store holds right before the event under test.
         let before: Vec<DocObs> = if last {
-            (0..NDOCS).map(|d| observe(&mut sut, d)).collect()
+            (0..NDOCS).map(|d| expected(&model[d], d)).collect()
         } else {
             vec![]
         };
@@ -389,6 +394,7 @@ fn exec(
             }
         };
         if last {
+            txn_kind = sut.store.verif_transaction_kind();
             // every document against its reference; other documents byte-identical to before
             for d in 0..NDOCS {
                 let now = observe(&mut sut, d);
@@ -437,7 +443,7 @@ fn exec(
         }
     }
     let key = format!(
-        "{:?}",
+        "{txn_kind}|{:?}",
         (0..NDOCS)
             .map(|d| (observe(&mut sut, d), model[d].open))
             .collect::<Vec<_>>()
